@@ -45,7 +45,7 @@ def run(cmd, env=None, cpu=20, stdin=None, cwd=None, max_out=1 << 20, as_mb=4096
     def pre():
         resource.setrlimit(resource.RLIMIT_CPU, (cpu, cpu + 2))
         resource.setrlimit(resource.RLIMIT_CORE, (0, 0))
-        resource.setrlimit(resource.RLIMIT_FSIZE, (1 << 31, 1 << 31))
+        resource.setrlimit(resource.RLIMIT_FSIZE, (1 << 33, 1 << 33))      # 8 GiB: images are sparse; one C19 configuration is a 5 GiB filesystem
         os.setsid()
     sin = subprocess.DEVNULL
     if stdin is not None:
